@@ -568,6 +568,62 @@ func ruleJSN5(c *Ctx) {
 		ok := impliesUnary(jo, neg, 0)
 		c.Check(ok, "joinOperator / per-operand negation only in the unary form", p.InstrPos(ci), "the negation flag can be true only when len(operands) == 1", "nested operands of a binary `not` (GRL !=) are wrapped in !( ): {\"not\":[{...},x]} is emitted as !(...) != x, the opposite of the tree")
 	}
+	jsn5Negates(c)
+}
+
+// JSN-5b: the other half. When parseOperand is asked to negate (the unary form of `not`), every operand form must come
+// back negated: a successful return reachable with negation == true yields a string that starts with "!".
+func jsn5Negates(c *Ctx) {
+	p := c.P
+	po := p.Func("pkg", "parseOperand")
+	if po == nil || len(po.Params) < 3 {
+		return
+	}
+	neg := ssa.Value(po.Params[2])
+	startsWithBang := func(v ssa.Value) bool {
+		for {
+			bo, ok := v.(*ssa.BinOp)
+			if !ok || bo.Op != token.ADD {
+				break
+			}
+			v = bo.X
+		}
+		s, ok := constString(v)
+		return ok && strings.HasPrefix(s, "!")
+	}
+	n := 0
+	for _, ret := range returnsOf(po) {
+		if returnsNonNilError(ret) || len(ret.Results) != 2 {
+			continue
+		}
+		if !isNilConst(ret.Results[1]) {
+			continue // hands back a callee's error together with its text
+		}
+		n++
+		if startsWithBang(ret.Results[0]) {
+			c.OK("parseOperand / "+shortRetLabel(p, ret)+" negates when asked", p.InstrPos(ret), "returns \"!\"+…")
+			continue
+		}
+		// is this return reachable while negation is true?
+		t, path := reach(po, nil, func(in ssa.Instruction) bool { return in == ssa.Instruction(ret) }, nil, func(b *ssa.BasicBlock, si int) bool {
+			iff, isIf := b.Instrs[len(b.Instrs)-1].(*ssa.If)
+			if !isIf {
+				return true
+			}
+			if kind, sTrue, okc := condOn(iff.Cond, func(v ssa.Value) bool { return v == neg }); okc && kind == "bool" {
+				return si == sTrue
+			}
+			return true
+		})
+		if t == nil {
+			c.OK("parseOperand / "+shortRetLabel(p, ret)+" negates when asked", p.InstrPos(ret), "not reachable with negation == true")
+		} else {
+			c.Fail("parseOperand / "+shortRetLabel(p, ret)+" negates when asked", p.InstrPos(ret), "with negation requested (unary `not`) this operand form is returned without the `!`: {\"not\":[x]} is emitted as x, the opposite of the tree", pathString(p, path)...)
+		}
+	}
+	if n == 0 {
+		c.Fail("parseOperand / success returns", p.Pos(po.Pos()), "no success return found (anchor lost)")
+	}
 }
 
 // impliesUnary: boolean value v can be true only if len(x) == 1 for some slice x.
